@@ -81,12 +81,15 @@ func (m *PointMap) MarshalBinary() ([]byte, error) {
 	return cbor.Marshal(pointBytes)
 }
 
+var noDupKeys, _ = cbor.DecOptions{DupMapKey: cbor.DupMapKeyEnforcedAPF}.DecMode()
+
 func (m *PointMap) UnmarshalBinary(data []byte) error {
 	if m.group == nil {
 		return errors.New("PointMap.UnmarshalBinary called without setting a group")
 	}
 	pointBytes := make(map[ID]cbor.RawMessage)
-	if err := cbor.Unmarshal(data, &pointBytes); err != nil {
+	// an encoding that lists a party twice is refused rather than merged
+	if err := noDupKeys.Unmarshal(data, &pointBytes); err != nil {
 		return err
 	}
 	m.Points = make(map[ID]curve.Point, len(pointBytes))
